@@ -8,6 +8,44 @@ From PS Require Import Base.Wrap Model.Data Model.Actions Model.Fsm Proofs.Monad
 Import ListNotations RecordSetNotations.
 Open Scope Z_scope.
 
+(* unfolding equations, stated before the loops are made opaque for conversion *)
+Lemma event_loop_O tc decode t m ev :
+  event_loop tc decode t O m ev = ret (m, mkResult false ErrFuel).
+Proof. reflexivity. Qed.
+
+Lemma event_loop_S tc decode t fuel m ev :
+  event_loop tc decode t (S fuel) m ev =
+    match next_state t (m_cur m) ev with
+    | None => ret (m, mkResult false ErrRejected)
+    | Some nxt =>
+      match lookup_state t nxt with
+      | None => ret (m, mkResult false ErrFsmConfig)
+      | Some sd =>
+        match st_action sd with
+        | None => ret (m, mkResult false ErrFsmConfig)
+        | Some act =>
+          let m1 := m <| m_prev := m_cur m |> <| m_cur := nxt |> <| m_data := (m_data m) <| d_fsm_state := nxt |> |> in
+          r <- exec tc decode action_fuel act (m_data m1) ;;
+          let '(ev', d') := r in
+          let m2 := m1 <| m_data := d' |> in
+          if String.eqb ev' Ev_Panic then ret (m2, mkResult false ErrPanic) else
+          ok <- persist m2 ;;
+          if negb ok then ret (m2, mkResult false ErrStore) else
+          if String.eqb ev' Ev_Done then ret (m2, mkResult true ErrNone)
+          else if String.eqb ev' Ev_NoOp then ret (m2, mkResult false ErrNone)
+          else if String.eqb ev' Ev_Retry then
+            let m3 := m2 <| m_retries := m_retries m2 + 1 |> in
+            if 20 <? m_retries m3 then ret (m3 <| m_retries := 0 |>, mkResult false ErrNone)
+            else event_loop tc decode t fuel m3 ev'
+          else event_loop tc decode t fuel m2 ev'
+        end
+      end
+    end.
+Proof. reflexivity. Qed.
+
+(* keep the kernel from unfolding the fuelled loops at their concrete fuel when checking proof terms *)
+Strategy opaque [event_loop exec loop_fuel action_fuel pay_loop].
+
 Arguments event_loop : simpl never.
 Arguments exec : simpl never.
 Arguments send_event : simpl never.
@@ -93,43 +131,13 @@ Proof.
   apply ret_inv in H. destruct H as (-> & _ & ->). reflexivity.
 Qed.
 
-Lemma event_loop_S fuel m ev :
-  event_loop tc decode t (S fuel) m ev =
-    match next_state t (m_cur m) ev with
-    | None => ret (m, mkResult false ErrRejected)
-    | Some nxt =>
-      match lookup_state t nxt with
-      | None => ret (m, mkResult false ErrFsmConfig)
-      | Some sd =>
-        match st_action sd with
-        | None => ret (m, mkResult false ErrFsmConfig)
-        | Some act =>
-          let m1 := enter m nxt in
-          r <- exec tc decode action_fuel act (m_data m1) ;;
-          let '(ev', d') := r in
-          let m2 := m1 <| m_data := d' |> in
-          if String.eqb ev' Ev_Panic then ret (m2, mkResult false ErrPanic) else
-          ok <- persist m2 ;;
-          if negb ok then ret (m2, mkResult false ErrStore) else
-          if String.eqb ev' Ev_Done then ret (m2, mkResult true ErrNone)
-          else if String.eqb ev' Ev_NoOp then ret (m2, mkResult false ErrNone)
-          else if String.eqb ev' Ev_Retry then
-            let m3 := m2 <| m_retries := m_retries m2 + 1 |> in
-            if 20 <? m_retries m3 then ret (m3 <| m_retries := 0 |>, mkResult false ErrNone)
-            else event_loop tc decode t fuel m3 ev'
-          else event_loop tc decode t fuel m2 ev'
-        end
-      end
-    end.
-Proof. reflexivity. Qed.
-
 Lemma event_loop_rule fuel : forall m ev w m' res w' es,
   I m -> E m ev ->
   event_loop tc decode t fuel m ev w = ((m', res), w', es) ->
   trace_ok P (m_data m) es /\ I m'.
 Proof.
   induction fuel as [|fuel IH]; intros m ev w m' res w' es HI HE H.
-  - unfold event_loop in H. apply ret_inv in H. destruct H as (H & _ & ->). inversion H; subst. simpl. auto.
+  - rewrite event_loop_O in H. apply ret_inv in H. destruct H as (H & _ & ->). inversion H; subst. simpl. auto.
   - rewrite event_loop_S in H.
     destruct (next_state t (m_cur m) ev) as [nxt|] eqn:Hn.
     2:{ apply ret_inv in H. destruct H as (H & _ & ->). inversion H; subst. simpl. auto. }
@@ -169,7 +177,7 @@ Proof.
     { apply ret_inv in H. destruct H as (H & _ & ->). inversion H; subst. apply Hfin; auto. }
     destruct (String.eqb ev' Ev_Retry).
     + cbv zeta in H.
-      destruct (20 <? m_retries (m2 <| m_retries := m_retries m2 + 1 |>)).
+      match type of H with (if ?c then _ else _) _ = _ => destruct c end.
       * apply ret_inv in H. destruct H as (H & _ & ->). inversion H; subst.
         apply Hfin; [apply I_retries; apply I_retries; auto | reflexivity].
       * apply (Hrec (m2 <| m_retries := m_retries m2 + 1 |>) ev' w2 m' res w' e4); auto.
@@ -186,6 +194,23 @@ Definition ctx_ok (m : machine) (ev : string) (ctx : option wire_msg) : Prop :=
                   I (m <| m_data := d' |>) /\ E (m <| m_data := d' |>) ev)
   end.
 
+Lemma persist_then_loop_rule mm evx lp wx m' res w' es :
+  I mm -> E mm evx ->
+  persist_then_loop tc decode t mm evx wx = ((m', res), w', es) ->
+  trace_ok P lp es /\ I m'.
+Proof.
+  intros Hmm HEm Hk. unfold persist_then_loop in Hk.
+  apply bind_inv in Hk. destruct Hk as (ok & w1 & e1 & e2 & Hp & Hk & ->).
+  apply persist_inv in Hp. subst e1.
+  destruct ok; cbn [negb] in Hk.
+  - apply event_loop_rule in Hk; auto. destruct Hk as [T2 HI']. split; auto.
+    cbn [app trace_ok lp_step]. split; [apply P_persist; assumption|exact T2].
+  - apply ret_inv in Hk. destruct Hk as (Hk & _ & ->). inversion Hk; subst.
+    cbn [app trace_ok]. split; [|assumption]. split; [apply P_persist; assumption|exact Logic.I].
+Qed.
+
+Arguments persist_then_loop : simpl never.
+
 Lemma send_event_rule m ev ctx lp w m' res w' es :
   I m -> ctx_ok m ev ctx ->
   send_event tc decode t m ev ctx w = ((m', res), w', es) ->
@@ -194,26 +219,15 @@ Proof.
   intros HI HC H. unfold send_event in H.
   destruct (String.eqb ev Ev_Done).
   { apply ret_inv in H. destruct H as (H & _ & ->). inversion H; subst. simpl. auto. }
-  assert (Key : forall mm evx wx, I mm -> E mm evx ->
-            (ok <- persist mm ;; if negb ok then ret (mm, mkResult false ErrStore)
-                                 else event_loop tc decode t loop_fuel mm evx) wx = ((m', res), w', es) ->
-            trace_ok P lp es /\ I m').
-  { intros mm evx wx Hmm HEm Hk.
-    apply bind_inv in Hk. destruct Hk as (ok & w1 & e1 & e2 & Hp & Hk & ->).
-    apply persist_inv in Hp. subst e1.
-    destruct ok; cbn [negb] in Hk.
-    - apply event_loop_rule in Hk; auto. destruct Hk as [T2 HI']. split; auto.
-      cbn [app trace_ok lp_step]. split; [apply P_persist; assumption|exact T2].
-    - apply ret_inv in Hk. destruct Hk as (Hk & _ & ->). inversion Hk; subst.
-      cbn [app trace_ok]. split; [|assumption]. split; [apply P_persist; assumption|exact Logic.I]. }
-  destruct ctx as [c|]; simpl in HC.
+  destruct ctx as [c|]; cbn [ctx_ok] in HC.
   - destruct HC as [HEinv HC].
     destruct (validate_ctx (m_data m) c) eqn:Hv; cbn [negb] in H.
     + destruct (apply_ctx (m_data m) c) as [d'|] eqn:Hap.
-      * destruct (HC d' eq_refl eq_refl) as [HI1 HE1]. eapply Key; eauto.
+      * destruct (HC d' eq_refl eq_refl) as [HI1 HE1].
+        exact (persist_then_loop_rule _ _ lp _ _ _ _ _ HI1 HE1 H).
       * apply ret_inv in H. destruct H as (H & _ & ->). inversion H; subst. simpl. auto.
-    + eapply Key; eauto.
-  - eapply Key; eauto.
+    + exact (persist_then_loop_rule _ _ lp _ _ _ _ _ HI HEinv H).
+  - exact (persist_then_loop_rule _ _ lp _ _ _ _ _ HI HC H).
 Qed.
 
 (* Recover(): the action of the CURRENT state runs on the machine as restored *)
@@ -252,15 +266,15 @@ Proof.
     destruct ok; cbn [negb] in H.
     2:{ apply ret_inv in H. destruct H as (H & _ & ->). inversion H; subst.
         rewrite app_nil_r. split; auto. apply trace_ok_app. rewrite L1. split; auto.
-        simpl. split; auto. }
+        cbn [trace_ok]. split; [exact (P_persist (m <| m_data := d' |>) (m_data m) false HI1)|exact Logic.I]. }
     destruct (String.eqb ev' Ev_NoOp).
     { apply ret_inv in H. destruct H as (H & _ & ->). inversion H; subst.
       rewrite app_nil_r. split; auto. apply trace_ok_app. rewrite L1. split; auto.
-      simpl. split; auto. }
+      cbn [trace_ok]. split; [exact (P_persist (m <| m_data := d' |>) (m_data m) true HI1)|exact Logic.I]. }
     assert (Hc : ctx_ok (m <| m_data := d' |>) ev' None) by (simpl; auto).
     apply (send_event_rule _ ev' None d') in H; auto.
     destruct H as [T4 HI']. split; auto. apply trace_ok_app. rewrite L1. split; auto.
-    simpl. split; [apply (P_persist (m <| m_data := d' |>)); auto|exact T4].
+    cbn [trace_ok lp_step]. split; [exact (P_persist (m <| m_data := d' |>) (m_data m) true HI1)|exact T4].
 Qed.
 
 (* admissible inputs of a step, as seen by the invariant *)
